@@ -1131,8 +1131,9 @@ class KullbackLeibler(Functional):
                 xlogy = scipy.special.xlogy(self.prior, self.prior / x)
                 res = (x - self.prior + xlogy).inner(self.domain.one())
 
-        if not np.isfinite(res):
+        if not np.isfinite(res) or np.any(np.less(x.asarray(), 0)):
             # In this case, some element was less than or equal to zero
+            # (a negative entry where the prior is zero gives a finite sum)
             return np.inf
         else:
             return res
